@@ -80,6 +80,9 @@ class Decoder:
         if isinstance(e, ast.BinOp) and isinstance(e.op, (ast.Add, ast.Sub, ast.Mult)):
             l, r = self.P(e.left, env), self.P(e.right, env)
             return l + r if isinstance(e.op, ast.Add) else l - r if isinstance(e.op, ast.Sub) else l * r
+        if isinstance(e, ast.UnaryOp) and isinstance(e.op, (ast.USub, ast.UAdd)):
+            v = self.P(e.operand, env)
+            return -v if isinstance(e.op, ast.USub) else v
         if isinstance(e, ast.Call) and isinstance(e.func, ast.Attribute) and dotted(e.func.value) == "self":
             f = self.prog.lookup(self.cls, e.func.attr)
             if f is not None:
@@ -256,7 +259,35 @@ class Decoder:
                     lp = None
                     it = st.iter
                     itsym = None
-                    if isinstance(it, ast.Call) and dotted(it.func) == "enumerate" and isinstance(st.target, ast.Tuple):
+                    # `for v, x in zip(itertools.count(start, step), XS)`: v is the induction variable start + step * i
+                    zip_count = None
+                    if isinstance(it, ast.Call) and dotted(it.func) == "zip" and len(it.args) == 2 and isinstance(st.target, ast.Tuple) \
+                            and len(st.target.elts) == 2 and all(isinstance(e_, ast.Name) for e_ in st.target.elts):
+                        ca = it.args[0]
+                        if isinstance(ca, ast.Name) and isinstance(env.get(ca.id), tuple) and env[ca.id][0] == "opaque":
+                            try:
+                                ca = ast.parse(env[ca.id][1], mode="eval").body
+                            except SyntaxError:
+                                pass
+                        if isinstance(ca, ast.Call) and dotted(ca.func) in ("itertools.count", "count") and len(ca.args) <= 2 and not ca.keywords:
+                            zip_count = (ca.args[0] if ca.args else ast.Constant(value=0), ca.args[1] if len(ca.args) > 1 else ast.Constant(value=1))
+                    if zip_count is not None:
+                        iv = st.target.elts[0].id
+                        src = ast.unparse(it.args[1])
+                        s0, k0 = self.P(zip_count[0], env), self.P(zip_count[1], env)
+                        if not k0.is_const():
+                            raise NotDecoded("counter step")
+                        if src == "self._chart_data":
+                            e2[iv] = s0 + k0 * Poly.sym("index")
+                            lp = ("series",)
+                            itsym = "index"
+                        elif src.endswith(".levels"):
+                            e2[iv] = s0 + k0 * Poly.sym("lvl")
+                            lp = ("levels", st.target.elts[1].id)
+                            itsym = "lvl"
+                        else:
+                            raise NotDecoded("loop over %s" % src)
+                    elif isinstance(it, ast.Call) and dotted(it.func) == "enumerate" and isinstance(st.target, ast.Tuple):
                         iv = st.target.elts[0].id
                         src = ast.unparse(it.args[0])
                         start = it.args[1] if len(it.args) > 1 else next((k.value for k in it.keywords if k.arg == "start"), None)
